@@ -27,7 +27,7 @@ def Obj.partyOf (w : World) (id : Nat) : Obj → Bool
 
 def chgAllowed (w : World) (id : Nat) (c : Cmd) : Chg → Bool
   | .mod o => o.partyOf w id ||
-      (c.ctype == c11.cmd.ConnectionCodeActivate && (match o with | .code i => c.k == Int.ofNat i | _ => false))
+      (dispatch c.ctype c.resp == some Handler.codeActivate && (match o with | .code i => c.k == Int.ofNat i | _ => false))
   | .del o => o.partyOf w id
   | .newMap l t => l == id || t == id
   | .newCode t => t == id
